@@ -23,20 +23,35 @@ SRC_IC = 'batch/batch/instance_config.py'
 SRC_CLOUD = {'gcp': ('batch/batch/cloud/gcp/resources.py', 'batch/batch/cloud/gcp/instance_config.py', 'gcp_resource_from_dict', 'GCPSlimInstanceConfig'),
              'azure': ('batch/batch/cloud/azure/resources.py', 'batch/batch/cloud/azure/instance_config.py', 'azure_resource_from_dict', 'AzureSlimInstanceConfig')}
 COQ_PROPS = 'theories/Billing/Props_C13.v'
-READY = False
+READY = True
 META = dict(
     design_ref='§5.B C13',
     technique='Coq proofs about billing-quantity formulas and serialisation schemas regenerated from the Python classes (fail-closed AST '
               'extractor) + finite machine tables read from the imported modules; proved-sound symbolic round-trip checker; '
               'differential run of the real instance-config classes',
-    level_text='',
-    level_note='',
+    level_text='Machine-checked theorems (Coq 8.16, closed under the global context) about definitions regenerated from the current source: '
+               'for both clouds, every machine size, every resource of the worker (compute, memory, boot/data/local-ssd disk, vm, ip fee, '
+               'service fee, support fees, accelerators) and EVERY set of jobs whose cores and memory fit on the worker, the billed quantities '
+               'add up to at most the whole worker\'s (C13_packed_le_whole); on the real gcp/azure pool tables, for all packings of packable '
+               'core requests (250 mcpu * 2^k, memory derived from the cores) the same holds with the machine table\'s memory '
+               '(C13_pool_packing_*; the float memory conversion equals the integer formula on every packable count of every worker type, '
+               'finite domain swept completely); a job with all cores and memory is billed exactly the full amount of every resource and the '
+               'all-cores pool job is the whole worker; the per-job external disk is billed by the request alone; for every well-formed '
+               'instance config (all field values, all resource lists) from_dict(to_dict cfg) = cfg, so it bills identical quantities '
+               '(proved-sound symbolic checker run on the regenerated schemas).',
+    level_note='Trusted: Coq kernel; the AST extractor harness/translate/c13_schema.py (class bodies -> formulas/schemas; fail-closed, and the real '
+               'classes are run against the generated definitions on every run); JSON encode/decode taken as the identity on int/str/bool/dict '
+               '(exercised through json.dumps/loads in the run); ProductVersions stubbed (resource names only). Pool workers whose core count '
+               'is not a power of two (<= 256) trip the assertion in quantified_resources and bill nothing: excluded, as in the code.',
     partial=False,
 )
 TRUSTED = ['extractor harness/translate/c13_schema.py (Python class bodies -> quantity formulas and to_dict/from_dict schemas), smoke-tested '
            'against the real classes on every run',
            'loader (stubbed third-party packages); ProductVersions replaced by a table in which every product has version 1']
-ASSUMPTIONS = []
+ASSUMPTIONS = ['pool jobs carry packable core requests (250 mcpu * 2^k) and the memory PoolConfig.convert_requests_to_resources derives from them; '
+               'job-private jobs carry the machine type\'s cores and memory (JobPrivateInstanceManagerConfig.convert_requests_to_resources)',
+               'disk sizes and accelerator counts stored in a resource are non-negative',
+               'the serialised form survives JSON storage unchanged (ints, strings, booleans, string->string maps)']
 
 
 # ------------------------------------------------------------------------------------------------ rendering helpers
@@ -263,3 +278,304 @@ def generate(ctx):
     ctx.c13_data = data
     ctx.c13_tables = tables
     ctx.write_generated('Gen.v', _render(data, tables))
+
+
+# ------------------------------------------------------------------------------------------------ cases
+
+def _get_tables(ctx):
+    if not hasattr(ctx, 'c13_tables'):
+        ctx.c13_tables = _tables(ctx)
+    return ctx.c13_tables
+
+
+def _get_data(ctx):
+    if not hasattr(ctx, 'c13_data'):
+        ctx.c13_data = _extract(ctx)
+    return ctx.c13_data
+
+
+def _is_pow2(n):
+    return n > 0 and n & (n - 1) == 0
+
+
+def _packings(rng, cores, n_random):
+    """lists of packable core requests (mcpu) that fit on a worker with `cores` cores"""
+    cap = cores * 1000
+    out = [[cap], [250] * (cap // 250)]
+    half = []
+    c = cap // 2
+    while c >= 250:
+        half.append(c)
+        c //= 2
+    out.append(half + ([250] if half else []))      # cap/2 + cap/4 + ... + 250 + 250 = cap
+    for _ in range(n_random):
+        left = cap
+        p = []
+        while left >= 250 and len(p) < 40:
+            ks = [k for k in range(0, 12) if 250 * 2 ** k <= left]
+            c = 250 * 2 ** rng.choice(ks)
+            p.append(c)
+            left -= c
+            if rng.random() < 0.1:
+                break
+        out.append(p)
+    return out
+
+
+def _configs(ctx, n_random_packings):
+    t = _get_tables(ctx)
+    rng = ctx.rng
+    full = ctx.thorough
+    cfgs = []
+    job_mem = {('gcp', wt, c): b for wt, c, b in t['gcp']['job_memory']}
+    job_mem.update({('azure', wt, c): b for wt, c, b in t['azure']['job_memory']})
+    pool_mt = {('gcp', mt): wt for wt, c, mt, ok, mib in t['gcp']['pool_machine'] if ok}
+    pool_mt.update({('azure', mt): wt for wt, c, ssd, mt, ok, mib in t['azure']['pool_machine'] if ok})
+
+    def add(cloud, mt, cores, memory, preemptible, ssd, data, boot, job_private, location, missing=()):
+        jobs = []
+        packs = []
+        if not job_private and _is_pow2(cores) and cores <= 256 and (cloud, mt) in pool_mt:
+            wt = pool_mt[(cloud, mt)]
+            for p in _packings(rng, cores, n_random_packings):
+                exts = [rng.choice([0, 0, 0, 10, 11, 20, 375, 1024, 5000]) for _ in p]
+                packs.append(list(range(len(jobs), len(jobs) + len(p))))
+                for c, e in zip(p, exts):
+                    jobs.append([c, job_mem[(cloud, wt, c)], e])
+        else:
+            jobs.append([cores * 1000, memory, 0])
+            if job_private:
+                packs.append([0])
+        cfgs.append(dict(cloud=cloud, machine_type=mt, preemptible=preemptible, local_ssd_data_disk=ssd, data_disk_size_gb=data,
+                         boot_disk_size_gb=boot, job_private=job_private, location=location, missing_products=list(missing),
+                         jobs=jobs, packings=packs))
+
+    for n, fam, wt, c, m, gp in t['gcp']['machines']:
+        combos = [(True, False, 100, 10, False), (False, True, 375, 10, True)]
+        if full:
+            combos += [(True, True, 375, 20, False), (False, False, 3000, 100, False), (True, False, 10, 10, True)]
+        for pre, ssd, data, boot, jp in combos:
+            add('gcp', n, c, m, pre, ssd, data, boot, jp, rng.choice(['us-central1-a', 'australia-southeast1-b']))
+    add('gcp', 'n1-standard-8', 8, 8 * 3840 * 2 ** 20, True, False, 100, 10, False, 'us-central1-a',
+        missing=['disk/pd-ssd/us-central1', 'compute/n1-preemptible/us-central1', 'memory/n1-preemptible/us-central1'])
+    for n, fam, c, m in t['azure']['machines']:
+        combos = [(True, False, 100, 30, False), (False, True, 0, 10, True)]
+        if full:
+            combos += [(True, True, 0, 128, False), (False, False, 4000, 200, False)]
+        for pre, ssd, data, boot, jp in combos:
+            add('azure', n, c, m, pre, ssd, data, boot, jp, rng.choice(['eastus', 'westeurope']))
+    return cfgs
+
+
+def _run_bill(ctx, cfgs):
+    """every job is billed with its external disk and, separately, without (worker resources only)"""
+    send = []
+    for c in cfgs:
+        d = {k: v for k, v in c.items() if k != 'packings'}
+        d['jobs'] = c['jobs'] + [[j[0], j[1], 0] for j in c['jobs']]
+        send.append(d)
+    res = []
+    for i in range(0, len(send), 200):
+        res += ctx.run_impl('c13_billing.py', {'mode': 'bill', 'configs': send[i:i + 200]}, timeout=600)['results']
+    return res
+
+
+# ------------------------------------------------------------------------------------------------ X: correspondence
+
+HEADER = ('From HailV Require Import Common.Prelude Billing.Model Billing.Serial Billing.GenLemmas.\n'
+          'From Coq Require Import String.\nFrom HailG Require C13.Gen.\nOpen Scope string_scope. Open Scope Z_scope.\n'
+          'Definition bills (c : cloud) (cores : Z) (rs : list resource) (js : list job) := map (fun j => map (fun r => billed_for c cores r j) rs) js.\n')
+
+
+def _res_lit(data, cloud, res):
+    order = data['clouds'][cloud]['order']
+    out = []
+    for cls, fields in res:
+        if cls not in order:
+            raise TieBroken('C13-correspondence', f'real object of class {cls} unknown to the extracted dispatch table')
+        out.append(f'({order.index(cls)}%nat, {listlit([fv_lit(f) for f in fields])})')
+    return listlit(out)
+
+
+def _model_dict(v):
+    """parsed Coq dict value [(k, FInt 3); ...] -> python dict"""
+    out = {}
+    for k, x in v:
+        tag, val = x if isinstance(x, tuple) else (x, None)
+        if tag == 'FMap':
+            out[k] = {a: b for a, b in val}
+        else:
+            out[k] = val
+    return out
+
+
+def correspond(ctx):
+    data = _get_data(ctx)
+    cfgs = _configs(ctx, ctx.scale(2, 8))
+    res = _run_bill(ctx, cfgs)
+    exprs, idx = [], []
+    dis = []
+    hist = {'created': 0, 'create_failed': 0}
+    for k, (c, r) in enumerate(zip(cfgs, res)):
+        if r['create'] != 'ok':
+            hist['create_failed'] += 1
+            continue
+        hist['created'] += 1
+        cl = 'GCP' if c['cloud'] == 'gcp' else 'Azure'
+        rs = _res_lit(data, c['cloud'], r['resources'])
+        jobs = r['jobs'] + [[r['cores'] * 1000, r['memory'], 0]]
+        js = listlit([f'({zlit(j[0])}, {zlit(j[1])}, {zlit(j[2])})' for j in jobs])
+        exprs.append(f'bills {cl} {r["cores"]} {rs} {js}')
+        idx.append(('bills', k))
+        scal = listlit([fv_lit(f) for f in r['scalar_fields']])
+        exprs.append(f'cfg_to_dict (cloud_schema {cl}) (cloud_classes {cl}) ({scal}, {rs})')
+        idx.append(('to_dict', k))
+        exprs.append(f'cfg_from_dict (cloud_schema {cl}) (cloud_classes {cl}) (cfg_to_dict (cloud_schema {cl}) (cloud_classes {cl}) ({scal}, {rs}))')
+        idx.append(('roundtrip', k))
+    vals = coq_eval(ctx, HEADER, exprs, shard=40)
+    n_eval = 0
+    distinct = set()
+    for (kind, k), v in zip(idx, vals):
+        c, r = cfgs[k], res[k]
+        if kind == 'bills':
+            impl_all = r['billed'] + [r['whole']]
+            for j, (mrow, irow) in enumerate(zip(v, impl_all)):
+                n_eval += 1
+                if irow == 'AssertionError' and not c['job_private'] and not (_is_pow2(r['cores']) and r['cores'] <= 256):
+                    continue      # the power-of-two assertion of quantified_resources (pool workers), not part of the model
+                m = [x[1] for x in mrow if isinstance(x, tuple) and x[0] == 'Billed']
+                if any(x == 'Raises' for x in mrow):
+                    m = 'AssertionError'
+                i = irow if isinstance(irow, str) else [q for _, q in irow]
+                if m != i:
+                    jobs = r['jobs'] + [[r['cores'] * 1000, r['memory'], 0]]
+                    dis.append(Disagreement('Gen.billed_for~InstanceConfig.quantified_resources',
+                                            {'config': {a: b for a, b in c.items() if a not in ('jobs', 'packings')}, 'job': jobs[j]}, m, i))
+                distinct.add((c['cloud'], c['machine_type'], c['local_ssd_data_disk'], tuple((r['jobs'] + [[0, 0, 0]])[j])))
+        elif kind == 'to_dict':
+            n_eval += 1
+            scal, rlist = v
+            md = _model_dict(scal)
+            md[data['clouds'][c['cloud']]['cfg']['list_key']] = [_model_dict(x) for x in rlist]
+            if md != r['to_dict']:
+                dis.append(Disagreement('Serial.cfg_to_dict~InstanceConfig.to_dict', {a: b for a, b in c.items() if a not in ('jobs', 'packings')},
+                                        md, r['to_dict']))
+        else:
+            n_eval += 1
+            ok_model = isinstance(v, tuple) and v[0] == 'Some'
+            ok_impl = r['reload'] == 'ok' and r.get('to_dict_again') == r['to_dict']
+            if ok_model != ok_impl:
+                dis.append(Disagreement('Serial.cfg_from_dict~InstanceConfig.from_dict', {a: b for a, b in c.items() if a not in ('jobs', 'packings')},
+                                        'reloads' if ok_model else 'fails', r['reload']))
+    sample = next((dict(config={a: b for a, b in c.items() if a not in ('jobs', 'packings')}, first_job=r['jobs'][0], billed=r['billed'][0])
+                   for c, r in zip(cfgs, res) if r['create'] == 'ok'), None)
+    return Corr(evaluations=n_eval, distinct_nontrivial=len(distinct),
+                rule='(cloud, machine type, disk option, job): every machine type of both clouds x disk / preemptible / job-private options x '
+                     'packings of packable core requests (+ random ones); real create()/quantified_resources/to_dict/from_dict vs the generated '
+                     'Gallina definitions under vm_compute: every billed quantity, the serialised dict and whether it reloads',
+                samples=[sample] if sample else [], disagreements=dis, histograms={'configs': hist}, exhaustive=False,
+                names=['Gen.billed_for~InstanceConfig.quantified_resources', 'Serial.cfg_to_dict~InstanceConfig.to_dict',
+                       'Serial.cfg_from_dict~InstanceConfig.from_dict'])
+
+
+# ------------------------------------------------------------------------------------------------ oracle
+
+def _cfg_key(c):
+    return {a: b for a, b in c.items() if a not in ('jobs', 'packings')}
+
+
+def _check_config(c, r):
+    """the property's clauses on the real classes' output for one configuration; returns list of (key, what, case, expected, observed)"""
+    out = []
+    ck = _cfg_key(c)
+    if r['create'] != 'ok':
+        return out       # a configuration the code itself refuses to create
+    n = len(c['jobs'])
+    billed_ext, billed_0 = r['billed'][:n], r['billed'][n:]
+    whole = r['whole']
+    pool_ok = c['job_private'] or (_is_pow2(r['cores']) and r['cores'] <= 256)
+    if not pool_ok:
+        return out       # quantified_resources asserts on this pool worker: nothing is billed at all
+    if isinstance(whole, str):
+        return [('whole-raises', f'quantified_resources of the whole worker raised {whole}', {'config': ck}, 'quantities', whole)]
+    # serialisation
+    if r['reload'] != 'ok':
+        out.append(('reload-fails', f'from_dict(to_dict(cfg)) raised {r["reload"]}', {'config': ck, 'to_dict': r['to_dict']}, 'a configuration', r['reload']))
+    else:
+        if r['whole_reloaded'] != whole or r['billed_reloaded'] != r['billed'] or r['cores2'] != r['cores'] or r['memory2'] != r['memory']:
+            bad = next((j for j, (a, b) in enumerate(zip(r['billed'], r['billed_reloaded'] or [])) if a != b), None)
+            out.append(('reload-bills-differently', 'the reloaded configuration bills different quantities',
+                        {'config': ck, 'job': None if bad is None else (c['jobs'] + c['jobs'])[bad]},
+                        whole if bad is None else r['billed'][bad], r['whole_reloaded'] if bad is None else r['billed_reloaded'][bad]))
+        if r['to_dict_again'] != r['to_dict']:
+            out.append(('reload-not-identical', 'to_dict(from_dict(to_dict(cfg))) differs from to_dict(cfg)', {'config': ck}, r['to_dict'], r['to_dict_again']))
+    for j, (be, b0) in enumerate(zip(billed_ext, billed_0)):
+        job = c['jobs'][j]
+        if isinstance(b0, str) or isinstance(be, str):
+            out.append(('job-raises', f'quantified_resources raised for a valid job', {'config': ck, 'job': job}, 'quantities', be if isinstance(be, str) else b0))
+            continue
+        if [nm for nm, _ in b0] != [nm for nm, _ in whole]:
+            out.append(('different-resources', 'a job without external disk is billed other resources than the whole worker', {'config': ck, 'job': job},
+                        [nm for nm, _ in whole], [nm for nm, _ in b0]))
+            continue
+        # external disk: exactly one extra entry when ext > 0, none otherwise, worth at least the request
+        extra = list(be)
+        for e in b0:
+            if e in extra:
+                extra.remove(e)
+        if job[2] == 0 and (extra or be != b0):
+            out.append(('external-disk-without-request', 'a job without external disk is billed one', {'config': ck, 'job': job}, b0, be))
+        if job[2] > 0 and (len(extra) != 1 or len(be) != len(b0) + 1 or extra[0][1] < job[2] * 1024):
+            out.append(('external-disk-wrong', 'external disk not billed as exactly one entry of at least the requested MiB', {'config': ck, 'job': job},
+                        f'one entry >= {job[2] * 1024}', extra))
+    # packed <= whole, position by position
+    for p in c['packings']:
+        rows = [billed_0[j] for j in p]
+        if any(isinstance(x, str) or len(x) != len(whole) for x in rows):
+            continue
+        for pos, (nm, wq) in enumerate(whole):
+            s = sum(row[pos][1] for row in rows)
+            if s > wq:
+                out.append(('packed-exceeds-whole', f'jobs packed on one worker are billed {s} of {nm}, the whole worker {wq}',
+                            {'config': ck, 'jobs': [c['jobs'][j] for j in p]}, f'<= {wq}', s))
+                break
+        total_cpu = sum(c['jobs'][j][0] for j in p)
+        if len(p) == 1 and total_cpu == r['cores'] * 1000 and c['jobs'][p[0]][1] == r['memory'] and rows[0] != whole:
+            out.append(('whole-not-whole', 'a job using the whole worker is not billed exactly the whole worker',
+                        {'config': ck, 'job': c['jobs'][p[0]]}, whole, rows[0]))
+        if len(p) == 1 and total_cpu == r['cores'] * 1000 and c['jobs'][p[0]][1] != r['memory']:
+            out.append(('whole-job-memory', 'the job asking for all cores does not get the whole memory of the machine',
+                        {'config': ck, 'job': c['jobs'][p[0]]}, r['memory'], c['jobs'][p[0]][1]))
+    return out
+
+
+def oracle(ctx, budget):
+    cfgs = _configs(ctx, ctx.scale(4, 16) * budget)
+    res = _run_bill(ctx, cfgs)
+    fails = []
+    n = 0
+    distinct = set()
+    for c, r in zip(cfgs, res):
+        n += len(c['jobs']) * 2 + 3
+        for p in c['packings']:
+            distinct.add((c['cloud'], c['machine_type'], c['local_ssd_data_disk'], c['job_private'], tuple(c['jobs'][j][0] for j in p)))
+        for key, what, case, exp, obs in _check_config(c, r):
+            fails.append(Failure(key, what, case, exp, obs))
+    return fails, {'evaluations': n, 'distinct_nontrivial': len(distinct),
+                   'rule': 'oracle: per configuration of the real classes — packed <= whole position by position, the all-cores job = whole, '
+                           'external disk billed per job only, from_dict(to_dict) reloads and bills identically (through json.dumps/loads)',
+                   'histograms': {'oracle_configs': {'n': len(cfgs)}}}
+
+
+def replay(ctx, doc):
+    case = doc.get('case') or {}
+    cfg = dict(case.get('config') or {})
+    jobs = case.get('jobs') or ([case['job']] if case.get('job') else [])
+    if not cfg:
+        return {'note': 'stored case has no configuration', 'case': case}
+    cfg['jobs'] = [list(j) for j in jobs]
+    cfg['packings'] = [list(range(len(jobs)))] if jobs else []
+    r = _run_bill(ctx, [cfg])[0]
+    return {'config': _cfg_key(cfg), 'jobs': jobs, 'create': r['create'], 'reload': r.get('reload'), 'billed': r.get('billed'),
+            'billed_reloaded': r.get('billed_reloaded'), 'whole': r.get('whole'), 'whole_reloaded': r.get('whole_reloaded'),
+            'violations': [dict(key=k, what=w, expected=e, observed=o) for k, w, _, e, o in _check_config(cfg, r)]}
